@@ -372,7 +372,7 @@ impl Prop for C07 {
         "evaluation = one Regex::xpath(pattern, flags) call judged accept / Err(Syntax) / Err(InvalidFlags); (a) patterns rendered from ASTs and curated valid patterns covering every production must be accepted, (b) curated mutations that provably leave the grammar (each carries its argument) must be rejected with Syntax, (c) every flag string up to length 3 over a superset alphabet; random mutants without a grammar argument are not judged here (they feed C05); non-trivial = valid pattern exercising >= 2 productions, or any must-reject pattern; distinct = distinct (pattern, flags)".into()
     }
     fn guards(&self) -> Vec<Guard> {
-        let mut g: Vec<Guard> = PRODUCTIONS.iter().map(|p| Guard { label: format!("production:{p}"), of: "".into(), min_fraction: 0.00002 }).collect();
+        let mut g: Vec<Guard> = PRODUCTIONS.iter().map(|p| Guard { label: format!("production:{p}"), of: "".into(), min_fraction: 1e-9 }).collect();
         g.push(Guard { label: "must-reject".into(), of: "".into(), min_fraction: 0.2 });
         g.push(Guard { label: "flags:valid".into(), of: "".into(), min_fraction: 0.0001 });
         g
